@@ -34,7 +34,7 @@ def _describe(tier):
         'bounds': 'alphabet 14; BFS fixpoint; all histories of length <= %d' % DEPTH[tier],
         'assumptions': ['one connection at a time (overlap is C12)', 'transport model: in-memory, per-connection FIFO; validated against loopback TCP by mc/loopback.py',
                         'timer rule: only timers armed with <= 2 s (the cleanup delay) are schedulable events'],
-        'must_be_nonzero': ['accepted-config', 'accepted-upload', 'answered-search', 'refused', 'reconnect-before-cleanup', 'bfs-fixpoint', 'dfs-histories', 'tcp-loopback-replays'],
+        'must_be_nonzero': ['accepted-config', 'accepted-upload', 'answered-search', 'refused', 'reconnect-before-cleanup', 'bfs-fixpoint', 'dfs-histories', 'tcp-loopback-replays', 'long-run-connections'],
     }
 
 
